@@ -25,6 +25,14 @@
 // GeneratorStreamsFilter with an allow-list that is revoked just before the stream is unbound
 // (a stateful filter whose answer at Unbind differs from the one at Bind).
 //
+// The ambient (ambient_test.go): in two of five rounds the interceptor under measurement is one member of a chain, as
+// behind interceptor.Registry — with transparent neighbours (NoOp, stats, packetdump) and, in most of those, with a
+// neighbour whose Close returns an error placed FIRST (`failclose`).  The sizes are still read from the interceptor
+// itself.  Closing the chain must close every member whatever an earlier member's Close returned: the `sizes` line
+// after `close` is the model's, and no goroutine of the interceptor is left when the bubble ends (testing/synctest
+// reports one that is: `PANIC deadlock: main bubble goroutine has exited but blocked goroutines remain`).  Every
+// Bind*/Unbind* call is wrapped in InfoGuard (the caller's StreamInfo comes back unedited).
+//
 // One slot of a phase = one sequence number of the stream: it is delivered (inorder), skipped
 // (loss: every p-th slot), delivered twice (dup: every p-th), or swapped with its neighbour
 // (reorder: the last two slots of every period); then virtual time advances by 1 ms (timers of
@@ -70,6 +78,7 @@ type c12Kind interface {
 type c12Env struct {
 	start time.Time
 	cfg   map[string]string
+	o     *Out // the case's output and ambient
 }
 
 func (e *c12Env) nat(k string, def int) int {
@@ -161,10 +170,12 @@ type c12Recv struct {
 	scratch []byte
 	closed  bool
 	revoked map[uint32]bool // nackgen filter=1: SSRCs taken off the allow-list of the streams filter
+	o       *Out
 }
 
-func newC12Recv(ic interceptor.Interceptor, twccExt bool, sz func() map[string]int) *c12Recv {
-	return &c12Recv{ic: ic, twccExt: twccExt, feeds: map[uint32]*c12Feed{}, readers: map[uint32]interceptor.RTPReader{},
+// newC12Recv: `ic` is the interceptor in its ambient chain (env.o.Wrap), `sz` reads the interceptor itself.
+func newC12Recv(env *c12Env, ic interceptor.Interceptor, twccExt bool, sz func() map[string]int) *c12Recv {
+	return &c12Recv{o: env.o, ic: ic, twccExt: twccExt, feeds: map[uint32]*c12Feed{}, readers: map[uint32]interceptor.RTPReader{},
 		infos: map[uint32]*interceptor.StreamInfo{}, sz: sz, scratch: make([]byte, 1500)}
 }
 
@@ -173,7 +184,7 @@ func (k *c12Recv) bind(ssrc uint32) {
 	f := &c12Feed{}
 	info := c12Info(ssrc, k.twccExt)
 	k.feeds[ssrc], k.infos[ssrc] = f, info
-	k.readers[ssrc] = k.ic.BindRemoteStream(info, f)
+	k.o.InfoGuard("BindRemoteStream", info, func() { k.readers[ssrc] = k.ic.BindRemoteStream(info, f) })
 }
 
 func (k *c12Recv) packet(ssrc uint32, seq uint16, lost bool) {
@@ -187,7 +198,7 @@ func (k *c12Recv) packet(ssrc uint32, seq uint16, lost bool) {
 		panic(err)
 	}
 	k.feeds[ssrc].buf = b
-	_, _, _ = r.Read(k.scratch, interceptor.Attributes{})
+	_, _, _ = r.Read(k.scratch, k.o.Attrs(interceptor.Attributes{}))
 }
 
 func (k *c12Recv) feedback() {}
@@ -197,7 +208,8 @@ func (k *c12Recv) unbind(ssrc uint32, how string) {
 		if k.revoked != nil {
 			k.revoked[ssrc] = true
 		}
-		k.ic.UnbindRemoteStream(c12UnbindInfo(info, how))
+		ui := c12UnbindInfo(info, how)
+		k.o.InfoGuard("UnbindRemoteStream", ui, func() { k.ic.UnbindRemoteStream(ui) })
 		delete(k.readers, ssrc)
 	}
 }
@@ -231,10 +243,11 @@ type c12Send struct {
 	tw        uint16
 	closed    bool
 	scratch   []byte
+	o         *Out
 }
 
 func newC12Send(ic interceptor.Interceptor, env *c12Env, twccExt bool, sz func() map[string]int) *c12Send {
-	k := &c12Send{ic: ic, env: env, twccExt: twccExt, sink: &c12Sink{}, writers: map[uint32]interceptor.RTPWriter{},
+	k := &c12Send{o: env.o, ic: ic, env: env, twccExt: twccExt, sink: &c12Sink{}, writers: map[uint32]interceptor.RTPWriter{},
 		infos: map[uint32]*interceptor.StreamInfo{}, sz: sz, rtcpFeed: &c12Feed{}, lastLost: map[uint32]uint16{},
 		remoteTW: twcc.NewRecorder(7), remoteCC: rfc8888.NewRecorder(), scratch: make([]byte, 65536)}
 	k.rtcpRead = ic.BindRTCPReader(k.rtcpFeed)
@@ -247,7 +260,7 @@ func (k *c12Send) bind(ssrc uint32) {
 	info.SSRCForwardErrorCorrection = ssrc + 1000
 	info.PayloadTypeForwardErrorCorrection = 118
 	k.infos[ssrc] = info
-	k.writers[ssrc] = k.ic.BindLocalStream(info, k.sink.rtpWriter())
+	k.o.InfoGuard("BindLocalStream", info, func() { k.writers[ssrc] = k.ic.BindLocalStream(info, k.sink.rtpWriter()) })
 }
 
 func (k *c12Send) packet(ssrc uint32, seq uint16, lost bool) {
@@ -259,7 +272,7 @@ func (k *c12Send) packet(ssrc uint32, seq uint16, lost bool) {
 	tw := k.tw
 	k.tw++
 	h := c12Header(ssrc, seq, k.twccExt, tw)
-	if _, err := w.Write(h, c12Payload, interceptor.Attributes{}); err == nil {
+	if _, err := w.Write(h, c12Payload, k.o.Attrs(interceptor.Attributes{})); err == nil {
 		k.accepted++
 	}
 	if lost {
@@ -289,7 +302,8 @@ func (k *c12Send) feedback() {
 
 func (k *c12Send) unbind(ssrc uint32, how string) {
 	if info := k.infos[ssrc]; info != nil {
-		k.ic.UnbindLocalStream(c12UnbindInfo(info, how))
+		ui := c12UnbindInfo(info, how)
+		k.o.InfoGuard("UnbindLocalStream", ui, func() { k.ic.UnbindLocalStream(ui) })
 		delete(k.writers, ssrc)
 	}
 }
@@ -379,10 +393,11 @@ func c12New(env *c12Env) c12Kind {
 		ic, err := f.NewInterceptor("")
 		must(err)
 		g := ic.(*nack.GeneratorInterceptor)
+		wic := env.o.Wrap(ic)
 		if env.nat("writer", 1) == 1 {
-			ic.BindRTCPWriter((&c12Sink{}).rtcpWriter())
+			wic.BindRTCPWriter((&c12Sink{}).rtcpWriter())
 		}
-		k := newC12Recv(ic, false, g.VerifSizes)
+		k := newC12Recv(env, wic, false, g.VerifSizes)
 		k.revoked = revoked
 		return k
 	case "nackresp":
@@ -390,7 +405,7 @@ func c12New(env *c12Env) c12Kind {
 		must(err)
 		ic, err := f.NewInterceptor("")
 		must(err)
-		k := newC12Send(ic, env, false, ic.(*nack.ResponderInterceptor).VerifSizes)
+		k := newC12Send(env.o.Wrap(ic), env, false, ic.(*nack.ResponderInterceptor).VerifSizes)
 		k.mkFb = func(k *c12Send) []rtcp.Packet { // a NACK for the last lost packet of every stream
 			var ssrcs []int
 			for s := range k.lastLost {
@@ -410,28 +425,31 @@ func c12New(env *c12Env) c12Kind {
 		must(err)
 		ic, err := f.NewInterceptor("")
 		must(err)
-		ic.BindRTCPWriter((&c12Sink{}).rtcpWriter())
-		return newC12Recv(ic, false, ic.(*report.ReceiverInterceptor).VerifSizes)
+		wic := env.o.Wrap(ic)
+		wic.BindRTCPWriter((&c12Sink{}).rtcpWriter())
+		return newC12Recv(env, wic, false, ic.(*report.ReceiverInterceptor).VerifSizes)
 	case "sr":
 		f, err := report.NewSenderInterceptor(report.SenderInterval(ivl))
 		must(err)
 		ic, err := f.NewInterceptor("")
 		must(err)
-		return newC12Send(ic, env, false, ic.(*report.SenderInterceptor).VerifSizes)
+		return newC12Send(env.o.Wrap(ic), env, false, ic.(*report.SenderInterceptor).VerifSizes)
 	case "twcc":
 		f, err := twcc.NewSenderInterceptor(twcc.SendInterval(ivl))
 		must(err)
 		ic, err := f.NewInterceptor("")
 		must(err)
-		ic.BindRTCPWriter((&c12Sink{}).rtcpWriter())
-		return newC12Recv(ic, true, ic.(*twcc.SenderInterceptor).VerifSizes)
+		wic := env.o.Wrap(ic)
+		wic.BindRTCPWriter((&c12Sink{}).rtcpWriter())
+		return newC12Recv(env, wic, true, ic.(*twcc.SenderInterceptor).VerifSizes)
 	case "rfc8888":
 		f, err := rfc8888.NewSenderInterceptor(rfc8888.SendInterval(ivl))
 		must(err)
 		ic, err := f.NewInterceptor("")
 		must(err)
-		ic.BindRTCPWriter((&c12Sink{}).rtcpWriter())
-		return newC12Recv(ic, false, ic.(*rfc8888.SenderInterceptor).VerifSizes)
+		wic := env.o.Wrap(ic)
+		wic.BindRTCPWriter((&c12Sink{}).rtcpWriter())
+		return newC12Recv(env, wic, false, ic.(*rfc8888.SenderInterceptor).VerifSizes)
 	case "rtpfb":
 		f, err := rtpfb.NewInterceptor()
 		must(err)
@@ -439,7 +457,7 @@ func c12New(env *c12Env) c12Kind {
 		must(err)
 		tw := env.cfg["mode"] != "ccfb"
 		h := rtpfb.VerifHistoryOf(ic)
-		k := newC12Send(ic, env, tw, func() map[string]int {
+		k := newC12Send(env.o.Wrap(ic), env, tw, func() map[string]int {
 			p, t, s := h.Sizes()
 			return map[string]int{"packets": p, "twcc": t, "ssrcseq": s}
 		})
@@ -456,21 +474,21 @@ func c12New(env *c12Env) c12Kind {
 		must(err)
 		ic, err := f.NewInterceptor("")
 		must(err)
-		k := newC12Send(ic, env, false, ic.(*stats.Interceptor).VerifSizes)
+		k := newC12Send(env.o.Wrap(ic), env, false, ic.(*stats.Interceptor).VerifSizes)
 		return &c12Stats{c12Send: k}
 	case "jitter":
 		f, err := jitterbuffer.NewInterceptor()
 		must(err)
 		ic, err := f.NewInterceptor("")
 		must(err)
-		return newC12Recv(ic, false, ic.(*jitterbuffer.ReceiverInterceptor).VerifSizes)
+		return newC12Recv(env, env.o.Wrap(ic), false, ic.(*jitterbuffer.ReceiverInterceptor).VerifSizes)
 	case "flexfec":
 		f, err := flexfec.NewFecInterceptor(flexfec.NumMediaPackets(uint32(env.nat("media", 5))),
 			flexfec.NumFECPackets(uint32(env.nat("fec", 2))))
 		must(err)
 		ic, err := f.NewInterceptor("")
 		must(err)
-		return newC12Send(ic, env, false, ic.(*flexfec.FecInterceptor).VerifSizes)
+		return newC12Send(env.o.Wrap(ic), env, false, ic.(*flexfec.FecInterceptor).VerifSizes)
 	case "leaky":
 		return &c12Leaky{p: gcc.NewLeakyBucketPacer(env.nat("rate", 1_000_000)), sink: &c12Sink{}}
 	case "pacing":
@@ -479,7 +497,7 @@ func c12New(env *c12Env) c12Kind {
 		must(err)
 		pi := ic.(*pacing.Interceptor)
 		var k *c12Send
-		k = newC12Send(ic, env, false, func() map[string]int {
+		k = newC12Send(env.o.Wrap(ic), env, false, func() map[string]int {
 			return map[string]int{"chan": pi.VerifSizes()["chan"], "held": k.accepted - k.sink.rtpN,
 				"factory": f.VerifSizes()["interceptors"]}
 		})
@@ -565,7 +583,7 @@ func c12Valid(m map[string]string, keys ...string) bool {
 
 func runSizes(t *testing.T, ops []string, o *Out) {
 	synctest.Test(t, func(t *testing.T) {
-		env := &c12Env{start: time.Now()}
+		env := &c12Env{start: time.Now(), o: o}
 		var k c12Kind
 		next := map[uint32]uint16{}
 		bound := map[uint32]bool{}
@@ -848,6 +866,21 @@ func genSizes(r *Rng, tier string, idx int) Case {
 	cl := kind
 	if fb == 0 {
 		cl += "-nofb"
+	}
+	// the ambient, drawn last: rounds 1 and 3 of every kind run in a chain whose FIRST member fails to close,
+	// round 2 in a chain of well-behaved neighbours (the plain objects ccadapter / leaky have no chain)
+	switch round := (idx / len(c12Kinds)) % 5; {
+	case kind == "ccadapter" || kind == "leaky":
+	case round == 1 || round == 3:
+		before := []string{"failclose", "failclose", "failclose,noop", "failclose,stats", "failclose,dumps"}[r.Intn(5)]
+		after := []string{"", "", "noop", "stats", "failclose"}[r.Intn(5)]
+		ops = append([]string{ambOp(before, after, true, false, false, false)}, ops...)
+		cl += "-chain"
+	case round == 2:
+		before := []string{"", "noop", "stats", "dumps,noop"}[r.Intn(4)]
+		after := []string{"", "noop", "stats", "dumpr"}[r.Intn(4)]
+		ops = append([]string{ambOp(before, after, true, false, false, false)}, ops...)
+		cl += "-chain"
 	}
 	return Case{Class: cl, Ops: ops}
 }
